@@ -266,3 +266,58 @@ pub(crate) fn lexer_agrees(buf: &[u8], s: &str) -> bool {
     }
     ok
 }
+
+// ---- StringValue static semantics (quoted strings) ------------------------------------------------------
+pub(crate) const OUT_CAP: usize = 24;
+
+/// spec semantics of a valid body, into a fixed buffer; returns the length
+pub(crate) fn ref_decode(body: &[u8], out: &mut [u8; OUT_CAP]) -> usize {
+    let mut n = 0;
+    let mut i = 0;
+    while i < body.len() {
+        let c = body[i];
+        if c != b'\\' {
+            out[n] = c;
+            n += 1;
+            i += 1;
+            continue;
+        }
+        let e = body[i + 1];
+        if e == b'u' {
+            let mut v = 0u32;
+            let mut k = 0;
+            while k < 4 {
+                v = v * 16 + r_hex(body[i + 2 + k]).unwrap_or(0);
+                k += 1;
+            }
+            // UTF-8 encoding of the code point (never a surrogate for a valid body)
+            if v < 0x80 {
+                out[n] = v as u8;
+                n += 1;
+            } else if v < 0x800 {
+                out[n] = 0xC0 | (v >> 6) as u8;
+                out[n + 1] = 0x80 | (v & 0x3F) as u8;
+                n += 2;
+            } else {
+                out[n] = 0xE0 | (v >> 12) as u8;
+                out[n + 1] = 0x80 | ((v >> 6) & 0x3F) as u8;
+                out[n + 2] = 0x80 | (v & 0x3F) as u8;
+                n += 3;
+            }
+            i += 6;
+        } else {
+            out[n] = match e {
+                b'b' => 0x08,
+                b'f' => 0x0C,
+                b'n' => b'\n',
+                b'r' => b'\r',
+                b't' => b'\t',
+                other => other, // " \ /
+            };
+            n += 1;
+            i += 2;
+        }
+    }
+    n
+}
+
